@@ -71,6 +71,13 @@ def run(tier, v):
         "h2_start_then_many_headers": (80, [c(hex=H2H.hex()), c(kind="h2_headers", n=nseg, len=1400)]),
         "h2_response_then_data": (80, [c(hex=H2H.hex()), sv(hex=(bytes([0, 0, 0, 4, 0, 0, 0, 0, 0]) + bytes([0, 0, 1, 1, 4, 0, 0, 0, 1, 0x88])).hex()), sv(kind="h2_data", n=nseg, len=1400)]),
     }
+    # a header block that raises the HPACK table limit (dynamic-table-size update to 1 MiB), inserts 60 fields of 137 octets and then
+    # fails to decode (index 0), followed by more payload in small segments: a block that failed must leave nothing behind, however
+    # often the direction is looked at again
+    badblk = bytes([0x3f, 0xe1, 0xff, 0x3f]) + b"".join(bytes([0x40, 5]) + b"x-k%02d" % i + bytes([100]) + b"v" * 100 for i in range(60)) + bytes([0x80])
+    badhdr = bytes([0, len(badblk) >> 8, len(badblk) & 255, 1, 4, 0, 0, 0, 1]) + badblk + bytes([0, 0x3e, 0x80, 0, 0, 0, 0, 0, 1])
+    scripts["h2_failed_block_then_small_segments_server"] = (80, [c(hex=H2H.hex()), sv(hex=(bytes([0, 0, 0, 4, 0, 0, 0, 0, 0]) + badhdr).hex()), sv(kind="zeros", n=min(nseg, 2500), len=16)])
+    scripts["h2_failed_block_then_small_segments_client"] = (80, [c(hex=(H2 + badhdr).hex()), c(kind="zeros", n=min(nseg, 2500), len=16)])
     for name, (port, script) in scripts.items():
         crates = ("tls", "uni") if name.startswith("tls") else ("http", "uni")
         if "tiny" in name or "one_byte" in name:
